@@ -37,7 +37,12 @@ def run_with_limit(ctx, db, body, limit_value):
     s, nested = self_term(body)
     if nested:
         st.mem[('deref', ('param', 1))] = s
-    st.mem[limit_lv(db, s)] = limit_value
+    lv = limit_lv(db, s)
+    st.mem[lv] = limit_value
+    # the limit stays what it is until something stores to the field or user code runs (it could call set_allocation_limit):
+    # re-reads after a loop or an opaque call see the same value (termflow drops the marker on those paths)
+    I.frozen = {lv: limit_value}
+    st.facts.add(('frozen', lv))
     I.res = None
     r = I.run_entry(body['id'], state=st)
     return I, r, s
@@ -130,6 +135,9 @@ def run(ctx, config='rel-all'):
     # that is strictly larger than the space left (shared with C18.O6); together with R5 (the fast path never reads the limit)
     from . import c18
     c18.check_exact_refusal(ctx, A, config, 'R8')
+    # ---- R10 ... and no caller skips the fast path: the chunk-acquiring slow path (where the limit is consulted) is entered only
+    # after the bumping function refused the same layout (shared with C18.O7)
+    c18.check_slow_path_guard(ctx, db, config, 'R10')
     # ---- R5 who reads the limit
     val = A.get('try_alloc_layout')
     readers = set()
